@@ -82,28 +82,34 @@ What is proved
 
   | T6 ⊇ T5: as T5, and an action of ANY node kind may return its INPUT packet once (`same` = `return inPck, nil`, the pass-through most of uniflow's own nodes are; `sames 1` = `[inPck]`): `Link(in, in)` is ignored, `Write(out, in)` makes the request itself awaited on the out-writer (`RSt.direct`); its answer is the join over the copies the writer delivered (`dels` of the request id), or itself when nobody accepts | `C02.ClassT6` | `C02.flow_answers_eq_ref_T6` – the full statement WITHOUT its freshness hypothesis `e.fresh` – (`C02.flow_invariant_T6`, `C02.classT5_sub_T6`, non-vacuity `C02.flow_T6_instance`: a pass-through chain through a fork returning `[inPck]`, pipelined; pass-through nodes into a join returning its input; lean/Uniflow/Proofs/FlowN18s.lean, FlowN19.lean; node level: `C02.node_contract_same`, lean/Uniflow/Proofs/NodeProtocolSame.lean) |
 
-  The class definitions, theorems and instances T1..T6 are in lean/Uniflow/Props/C02Flow.lean. Classes T3 and T4 are
+  | T7 ⊇ T6: as T6, and (1) an action of ANY node kind – also ONE-TO-ONE, `return nil, nil` – may return nothing: the request is answered with itself; (2) a one-to-many action may return its input packet on SEVERAL out ports (`sames k`, any k) or next to new packets (`mixed`, harness `rel n m a3 = -`) | `C02.ClassT7` | `C02.flow_answers_eq_ref_T7` (`C02.classT6_sub_T7`, non-vacuity `C02.flow_T7_instance` – a one-to-one node drops the first of two pipelined requests – and `C02.flow_T7_fork_same_instance` – a fork returning `[inPck, inPck]` into a two-input join through pass-through nodes; lean/Uniflow/Proofs/FlowN19.lean) |
+
+  Two defects of the real nodes were repaired for T7 (both found by this property's work, fix commits in /repo):
+  (A) `OneToOneNode.forward` called `tracer.Write(outWriter, nil)` for an action returning `(nil, nil)`: nil
+  dereference in the forward goroutine, the process died, the request was never answered. Now `Write(nil, inPck)`,
+  as the other two node kinds do (`Node.program .oneToOne` = echo for an empty result; it never returns `none` any
+  more, the node's `panic` flag is never set by `finish`).
+  (B) an action returning its input packet next to other outputs – `[inPck, inPck]`, `[inPck, fresh]`,
+  `[fresh, inPck]` – with one of the ports refusing the write: the tracer keeps ONE set of response slots per packet
+  id, the echo of the refused write filled the slot of an accepted one; the requester got its own packet back at once
+  and the real answer was lost; for `[fresh, inPck]` / `[inPck, fresh]` with the in packet's port refusing, the late
+  answer to the fresh packet then indexed the deleted slots out of range and the process died. Repaired in the NODES
+  (`node.derive`): a node never hands its tracer a packet object the tracer already follows – the in packet(s), or
+  an earlier output of the same call – but a copy (readers receive copies of what is written anyway). The tracer is
+  unchanged. In the model `Flow.release` allocates a new id for `same` / `sames k` / `mixed` – they are `out` /
+  `many` with the request's payload –, so the joins are in link order (no arrival-order joins any more) and the class
+  needs no new invariant. `Tracer.Link(p, p)` / a second `Write` of one id are no longer reachable from the nodes
+  (`C02.node_contract_same`, `J_finish_same`, `RSt.direct` remain true statements about the tracer model).
+
+  The class definitions, theorems and instances T1..T7 are in lean/Uniflow/Props/C02Flow.lean. Classes T3 and T4 are
   corollaries of T5 (their own invariant `FlowH.HI` was removed; lean/Uniflow/Proofs/FlowH1..4.lean keep the shared
   definitions and helper lemmas).
 
 Not proved: `C02.flow_answers_eq_ref_full` (kept as a `def`) in general – beyond the classes of the table:
-(e) `sames k` with `k ≥ 2` – ONE packet object returned on several out ports of a fork (`{inPck, inPck}`): the second
-`Write` of a request that is already awaited on a writer leaves the abstract tracer's protocol (`ATracer.Pre`;
-`awrite` of a `direct` request sets `bad`) – the real `Tracer.Write` appends a second `receives` slot. It needs
-`RSt.direct` with a LIST of writers in `Spec/ATracer.lean` (and `TRel`, `Inv.owed`), `OpsOK` with a shape
-`Link(p,p)…; Write(w₁,p); …; Write(w_k,p)`, and the request's `dels` growing with every write (already so in
-`Flow.gWrite`). Checked on every run instead (`rel n s k` schedules, `orderfree` comparison).
-(f) one-to-one actions returning nothing, `(nil, nil)`: the REAL `OneToOneNode.forward` calls
-`tracer.Write(outWriter, nil)`, `Writer.Write(nil)` / `Tracer.receive(nil, nil)` dereference the nil packet and the
-forward goroutine panics – the process dies, the request is never answered (witness: a test with
-`NewOneToOneNode(func(…) (*packet.Packet, *packet.Packet) { return nil, nil })`, one `Write` on a linked source →
-`panic: runtime error: invalid memory address or nil pointer dereference … packet.(*Packet).ID … Tracer.receive …
-Tracer.Write … OneToOneNode.forward onetoone.go:89`). The model agrees: `program .oneToOne p (.outs [])` = none, the
-node's `panic` flag is set (and `anyPanic` excludes the run from the quiescence half). One-to-many and many-to-one
-nodes answer such a request with itself (`Write(nil, in)`, classes T4/T5);
 one-to-many nodes with more than 6 out ports (the pump `backStep` only looks at writers `< maxW`); many-to-one
 nodes with more than 63 in-ports (reader keys `n*64+port`, tag `n*64+63` is the action tag); a many-to-one action
-returning several packets (`many`).
+returning several packets (`many`); one packet object that is NOT the in packet returned on several out ports
+(`[q, q]`: `node.derive` copies the second one – not expressible in the schedules of `Flow.Ext`).
 It is checked on every run of `bin/check C02` instead: `S1` after every step, `F…`/`M1` at the end.
 The statement requires the source to be linked (a request written to an unlinked source is never
 answered and has no reference answer).
